@@ -1,15 +1,24 @@
 #!/bin/bash
 # Regression suite of the checker itself (not a registered check): every
 # breaking mutant under mutants/<prop>/ must be detected by that property's
-# check and every benign-* mutant must stay silent. Mutants are applied to a
-# scratch git worktree outside /repo and /verif, which is removed at the end.
+# check and every benign-* mutant must stay silent. Mutants are applied to
+# scratch git worktrees outside /repo and /verif (one per worker), which are
+# removed at the end. Usage: ./selftest.sh [prop…]   (J=workers, default 4)
 cd "$(dirname "$0")"
-export AVCHECK_WT=${AVCHECK_WT:-/var/tmp/avcheck-selftest-wt}
-rc=0
-for d in mutants/*/; do
-  p=$(basename "$d")
-  ./bin/avcheck -list | grep -q "^$p " || { echo "SKIP $p (not registered)"; continue; }
-  scripts/mutant.sh "$p" "$d"*.patch || rc=1
-done
-git -C /repo worktree remove --force "$AVCHECK_WT" 2>/dev/null; git -C /repo worktree prune
-exit $rc
+J=${J:-4}
+props=${*:-$(ls mutants)}
+mkdir -p /var/tmp/avcheck-logs
+run_one() {
+  p=$1
+  ./bin/avcheck -list | grep -q "^$p " || { echo "SKIP $p (not registered)"; return 0; }
+  AVCHECK_WT=/var/tmp/avcheck-selftest-$p scripts/mutant.sh "$p" mutants/$p/*.patch > /var/tmp/avcheck-logs/selftest-$p.log 2>&1
+  rc=$?
+  git -C /repo worktree remove --force /var/tmp/avcheck-selftest-$p 2>/dev/null
+  ok=$(grep -c '^OK' /var/tmp/avcheck-logs/selftest-$p.log); bad=$(grep -c '^FAIL\|^PATCH-FAILED' /var/tmp/avcheck-logs/selftest-$p.log)
+  echo "$p ok=$ok fail=$bad"
+  [ "$bad" -gt 0 ] && grep '^FAIL\|^PATCH-FAILED' /var/tmp/avcheck-logs/selftest-$p.log | cut -c1-200
+  return $rc
+}
+export -f run_one
+echo $props | tr ' ' '\n' | xargs -P "$J" -I{} bash -c 'run_one {}'
+git -C /repo worktree prune
